@@ -59,7 +59,7 @@ async def explore(tier, seed):
             # documents refused for a fragment cycle (validators keep per-rule state between documents)
             try:
                 from violations import Catalogue
-                for q2 in (Catalogue(sg, rng).m_fragment_cycle(q) or [])[:2]: pool.append(("cyclic", q2, ops[0][1], None))
+                for q2 in (Catalogue(sg, rng).m_fragment_cycle(q) or [])[:4]: pool.append(("cyclic", q2, ops[0][1], None))
             except Exception:
                 pass
         pool.append(("junk", "", None, None)); pool.append(("junk", "{", None, None))
